@@ -37,6 +37,10 @@ class _Return(Exception):
         self.v = v
 
 
+class _Raise(Exception):
+    """the interpreted code executed a `raise` statement"""
+
+
 class Unsupported(Exception):
     pass
 
@@ -246,7 +250,13 @@ class Interp:
     def run(self, qualname, inputs: dict, contract: S.Contract = None, ghosts_from=None):
         c = contract or self.contracts[qualname]
         fs = get_function(qualname)
-        args = [a.arg for a in fs.node.args.args if a.arg != "self"]
+        args = [a.arg for a in fs.node.args.args if a.arg not in ("self", "cls")]
+        body = strip_doc(fs.node.body)
+        if c.block is not None:       # Hoare triple on a statement block: inputs are the contract's params
+            keys = [fs.after_key.get(id(s_)) for s_ in body]
+            k0, k1 = "after " + c.block[0], "after " + c.block[1]
+            body = body[keys.index(k0):keys.index(k1) + 1]
+            args = list(c.params)
         env = {a: inputs[a] for a in args}
         for g in c.ghosts:
             env[g] = inputs[g]
@@ -261,9 +271,11 @@ class Interp:
                 raise Violation("pre", cl.label, "precondition not satisfied by the input: " + cl.expr)
         result = None
         try:
-            self.block(strip_doc(fs.node.body), fr)
+            self.block(body, fr)
         except _Return as r:
             result = pyval(r.v)
+        except _Raise:
+            return None          # abnormal exit: the post-condition speaks about normal completion only
         ctx = {"old": fr.old, "result": result}
         for cl in c.ensures:
             self.check_clause(fr, cl, fr.env, ctx, "post", cl.label)
@@ -597,6 +609,8 @@ class Interp:
             return self.while_(s, fr)
         if t is ast.Assert:
             return
+        if t is ast.Raise:
+            raise _Raise()
         raise Unsupported(f"statement {t.__name__}")
 
     def assign(self, tgt, val, fr):
